@@ -28,7 +28,7 @@ def gen_units_text(ml):
         rows.append(f"  ({cq_str(n)}, {cq_Q(Fraction(float(m.value)))}, {'true' if m is DistanceUnit.Angstrom else 'false'})")
     return ("(* regenerated from molli.chem.geometry.DistanceUnit on every run (tie T): member name (aliases included),\n"
             "   value, member-is-DistanceUnit.Angstrom *)\n"
-            "From Coq Require Import List ZArith QArith String.\nImport ListNotations.\nOpen Scope string_scope.\n"
+            "From Coq Require Import List ZArith QArith String.\nImport ListNotations.\nLocal Open Scope string_scope.\n"
             "Definition units : list (string * Q * bool) := [\n" + ";\n".join(rows) + "\n].\n")
 
 
